@@ -3,6 +3,7 @@ package websocket
 import (
 	"context"
 	"sync"
+	"sync/atomic"
 	"time"
 
 	"github.com/aukilabs/go-tooling/pkg/errors"
@@ -139,6 +140,7 @@ type handler struct {
 	sendChan       chan hwebsocket.Msg
 	closing        chan struct{}
 	done           chan struct{}
+	notReading     atomic.Bool
 	sender         hwebsocket.Sender
 	dispatcher     hwebsocket.Dispatcher
 	consumer       hwebsocket.Consumer
@@ -218,6 +220,16 @@ func (h *handler) Handle(ctx context.Context) {
 				h.disconnect(errors.New("handling message failed").Wrap(err))
 			}
 
+			// Handling a message can take long, when it is relayed to a
+			// participant that does not read: the client was not idle meanwhile.
+			if !idleTimer.Stop() {
+				select {
+				case <-idleTimer.C:
+				default:
+				}
+			}
+			idleTimer.Reset(idleTimeout)
+
 		case err := <-h.disconnectChan:
 			h.handleDisconnect(err)
 			if ctx.Err() == nil {
@@ -244,11 +256,39 @@ func (h *handler) send(protoMsg hwebsocket.ProtoMsg) {
 func (h *handler) sendMsg(msg hwebsocket.Msg) {
 	select {
 	case h.sendChan <- msg:
+		return
 
 	case <-h.closing:
 		// The connection is being closed: nobody reads the channel anymore.
 		// Blocking here would block the sender of the message, which can be
 		// another participant broadcasting to its session.
+		return
+
+	default:
+	}
+
+	// The queue is full: the client does not read what it is sent fast enough.
+	// It is waited for, but not for ever. The sender of the message can be the
+	// main loop of this very connection (an answer, a sync clock): blocked
+	// here, it could neither notice that the client is idle nor handle any
+	// disconnection, and the client would never be disconnected.
+	if h.notReading.Load() {
+		// Already given up on: the disconnection is on its way.
+		return
+	}
+
+	timer := time.NewTimer(h.Handler.IdleTimeout())
+	defer timer.Stop()
+
+	select {
+	case h.sendChan <- msg:
+
+	case <-h.closing:
+
+	case <-timer.C:
+		h.notReading.Store(true)
+		h.disconnect(errors.New("sending message failed: client is not reading").
+			WithTag("duration", h.Handler.IdleTimeout()))
 	}
 }
 
